@@ -360,8 +360,9 @@ func checkErrorExaminedBeforeNextWrite(c *core.Ctx, p *progFacts, sinks []sink) 
 		A := errAliases(ev)
 		uses := func(v ssa.Value) bool { return v != nil && A[v] }
 		type pt struct {
-			b *ssa.BasicBlock
-			i int
+			b      *ssa.BasicBlock
+			i      int
+			failed bool // on the branch where the error is known to be non-nil
 		}
 		start := s.call.(ssa.Instruction)
 		sb := start.Block()
@@ -371,19 +372,47 @@ func checkErrorExaminedBeforeNextWrite(c *core.Ctx, p *progFacts, sinks []sink) 
 				si = i + 1
 			}
 		}
-		seen := map[*ssa.BasicBlock]bool{}
-		work := []pt{{sb, si}}
+		type visit struct {
+			b      *ssa.BasicBlock
+			failed bool
+		}
+		seen := map[visit]bool{}
+		work := []pt{{sb, si, false}}
 		var bad string
 		var badPos token.Pos
 		for len(work) > 0 && bad == "" {
 			cur := work[len(work)-1]
 			work = work[:len(work)-1]
 			stopped := false
+			var only []*ssa.BasicBlock // successors to follow when the block ends in a test of the error
+			nextFailed := cur.failed
 			for i := cur.i; i < len(cur.b.Instrs) && !stopped; i++ {
 				ins := cur.b.Instrs[i]
 				switch x := ins.(type) {
 				case *ssa.If:
-					if bo, ok := x.Cond.(*ssa.BinOp); ok && (uses(bo.X) || uses(bo.Y)) {
+					bo, ok := x.Cond.(*ssa.BinOp)
+					if !ok || !(uses(bo.X) || uses(bo.Y)) {
+						break
+					}
+					// the error is tested: nothing more is asked of the branch where it is nil; on the branch where it is
+					// not, it must be returned, sent or handed on before anything else is written and before the function
+					// returns (a test that only leaves a loop lets the next write bury the failure)
+					isNilCmp := false
+					for _, side := range []ssa.Value{bo.X, bo.Y} {
+						if k, isC := side.(*ssa.Const); isC && k.IsNil() {
+							isNilCmp = true
+						}
+					}
+					if !isNilCmp || len(cur.b.Succs) != 2 {
+						stopped = true
+						break
+					}
+					switch bo.Op {
+					case token.NEQ:
+						only, nextFailed = []*ssa.BasicBlock{cur.b.Succs[0]}, true
+					case token.EQL:
+						only, nextFailed = []*ssa.BasicBlock{cur.b.Succs[1]}, true
+					default:
 						stopped = true
 					}
 				case *ssa.Return:
@@ -393,16 +422,30 @@ func checkErrorExaminedBeforeNextWrite(c *core.Ctx, p *progFacts, sinks []sink) 
 						}
 					}
 					if !stopped {
-						bad, badPos = "the function returns at "+c.PosStr(x.Pos())+" without having looked at it", x.Pos()
+						if cur.failed {
+							bad, badPos = "after finding it non-nil the function returns at "+c.PosStr(x.Pos())+" without returning or sending it", x.Pos()
+						} else {
+							bad, badPos = "the function returns at "+c.PosStr(x.Pos())+" without having looked at it", x.Pos()
+						}
 					}
 					stopped = true
 				case *ssa.Send:
 					if uses(x.X) {
 						stopped = true
 					}
+				case *ssa.Panic:
+					stopped = true
 				case ssa.CallInstruction:
 					if isSink[ins] {
-						bad, badPos = "the next write at "+c.PosStr(ins.Pos())+" happens before it is looked at (a failure of this write is forgotten if a later write succeeds)", ins.Pos()
+						if cur.failed {
+							bad, badPos = "it is found non-nil, but the next write at "+c.PosStr(ins.Pos())+" happens before it is returned or sent (if that write succeeds the failure is forgotten)", ins.Pos()
+						} else {
+							bad, badPos = "the next write at "+c.PosStr(ins.Pos())+" happens before it is looked at (a failure of this write is forgotten if a later write succeeds)", ins.Pos()
+						}
+						stopped = true
+						break
+					}
+					if cal := x.Common().StaticCallee(); cal != nil && cal.String() == "os.Exit" {
 						stopped = true
 						break
 					}
@@ -417,10 +460,15 @@ func checkErrorExaminedBeforeNextWrite(c *core.Ctx, p *progFacts, sinks []sink) 
 			if stopped {
 				continue
 			}
-			for _, succ := range cur.b.Succs {
-				if !seen[succ] {
-					seen[succ] = true
-					work = append(work, pt{succ, 0})
+			succs := cur.b.Succs
+			if only != nil {
+				succs = only
+			}
+			for _, succ := range succs {
+				v := visit{succ, nextFailed}
+				if !seen[v] {
+					seen[v] = true
+					work = append(work, pt{succ, 0, nextFailed})
 				}
 			}
 		}
